@@ -127,7 +127,16 @@ pub fn gen(seed: u64, cases: usize, flavour: &str, path: &str) {
         let mut pending = 0u64;
         let mut date = 100i64;
         let mut qty = 0u64;
-        let len = if batchy { 3 + g.rng.below(6) } else { 5 + g.rng.below(60) };
+        let mut recent_px: Vec<f64> = Vec::new();
+        // one case in twelve leaves the ordinary regime: a long history (ids in the hundreds, a deep book), a dozen
+        // assets, or large magnitudes (powers of two: the quarter-point grid and its decimal spellings stay exact)
+        let stress = if g.rng.chance(1, 12) { 1 + g.rng.below(3) } else { 0 };
+        g.stats.bump(match stress { 1 => "stress_long_history", 2 => "stress_many_assets", 3 => "stress_magnitudes", _ => "ordinary_regime" });
+        let nasset: u64 = if stress == 2 { 12 } else { 3 }; // asset `nasset` is never quoted
+        let mag: f64 = if stress == 3 { *g.rng.pick(&[1073741824.0, 1099511627776.0]) } else { 1.0 };
+        // magnitudes include the clock: epoch milliseconds, a quarter of a second apart
+        let (date_step, date_jitter) = if stress == 3 && g.rng.chance(1, 2) { date = 1_700_000_000_000; (250i64, 1u64) } else { (1i64, 3u64) };
+        let len = if stress == 1 && batchy { 30 + g.rng.below(40) } else if stress == 1 { 250 + g.rng.below(450) } else if batchy { 3 + g.rng.below(6) } else { 5 + g.rng.below(60) };
         for _ in 0..len {
             let roll = g.rng.below(10);
             if roll <= 4 {
@@ -140,6 +149,9 @@ pub fn gen(seed: u64, cases: usize, flavour: &str, path: &str) {
                     n
                 } else if g.rng.chance(1, 25) {
                     20 + g.rng.below(40)
+                } else if g.rng.chance(1, if thorough { 150 } else { 600 }) {
+                    // past the round capacities a buffer or a book may be given: 256, 1000, 1024
+                    *g.rng.pick(&[256, 257, 300, 1000, 1025, 1100])
                 } else {
                     1
                 };
@@ -151,21 +163,33 @@ pub fn gen(seed: u64, cases: usize, flavour: &str, path: &str) {
                         2 => k % 2 == 1,
                         _ => (k / 5) % 2 == 1,
                     };
-                    let asset = if g.rng.chance(1, 15) { 3 } else { g.rng.below(3) }; // asset 3 is never quoted
+                    let asset = if g.rng.chance(1, 15) { nasset } else { g.rng.below(nasset) };
                     qty += 1;
                     let sz = if dup { (1 + g.rng.below(3)) as f64 } else { qty as f64 + if g.rng.chance(1, 5) { 0.5 } else { 0.0 } };
-                    let px = grid(&mut g.rng);
+                    let px = grid(&mut g.rng) * mag;
                     let kind = match g.rng.below(4) {
                         0 => "L:ioc".to_string(),
                         1 => "L:gtc".to_string(),
                         _ => {
                             let tp = g.rng.chance(1, 2);
                             let is_market = !g.rng.chance(1, 3);
-                            let tpx = if g.rng.chance(1, 2) { px } else { grid(&mut g.rng) };
+                            let tpx = if g.rng.chance(1, 2) { px } else { grid(&mut g.rng) * mag };
                             format!("T:{}:{}:{}", fb(tpx), if is_market { 1 } else { 0 }, if tp { "tp" } else { "sl" })
                         }
                     };
-                    let sp = g.rng.below(3) + if g.rng.chance(1, 5) { 3 * (1 + g.rng.below(3)) } else { 0 };
+                    let mut sp = g.rng.below(3) + if g.rng.chance(1, 5) { 3 * (1 + g.rng.below(3)) } else { 0 };
+                    // sizes far from the ordinary: dust, nine decimals, thirteen digits (spelled in full, never with
+                    // four decimals); prices that binary64 only approximates
+                    let (sz, px) = if stress == 3 && g.rng.chance(1, 5) {
+                        sp = (sp / 3) * 3 + if g.rng.chance(1, 2) { 0 } else { 2 };
+                        (*g.rng.pick(&[4e-9, 1.123456789, 987654321987.0, 0.7999999999999999]) * (1.0 + qty as f64 / 1024.0), *g.rng.pick(&[px, 0.3, 0.1 + 0.2, 0.7]))
+                    } else {
+                        (sz, px)
+                    };
+                    recent_px.push(px);
+                    if recent_px.len() > 8 {
+                        recent_px.remove(0);
+                    }
                     let via = g.rng.below(2);
                     g.stats.bump(&format!("insert_{}_{}", &kind[..1], if is_buy { "buy" } else { "sell" }));
                     g.line(&format!("I {} {} {} {} {} {} {}", asset, if is_buy { 1 } else { 0 }, fb(px), fb(sz), kind, sp, via));
@@ -175,27 +199,46 @@ pub fn gen(seed: u64, cases: usize, flavour: &str, path: &str) {
                 // children of triggers also take ids, so allow a margin above the admitted count
                 let hi = next_id + 4;
                 let id = if !g.rng.chance(1, 4) { g.rng.below(hi.max(1)) } else { hi + g.rng.below(5) };
-                let asset = g.rng.below(4);
+                let asset = g.rng.below(nasset + 1);
                 g.stats.bump("delete");
                 g.line(&format!("D {asset} {id}"));
             } else {
                 let mut line = String::new();
                 let mut nq = 0;
-                for a in 0..3u64 {
+                for a in 0..nasset {
                     if !g.rng.chance(1, 4) {
-                        let bid = grid(&mut g.rng);
-                        let ask = bid + g.rng.below(3) as f64 * 0.25;
+                        let mut bid = grid(&mut g.rng) * mag;
+                        let mut ask = bid + g.rng.below(3) as f64 * 0.25 * mag;
+                        // a quote that touches a recent limit price or its 10% band, or misses by one unit in the last place
+                        if !recent_px.is_empty() && g.rng.chance(1, 6) {
+                            let p0 = *g.rng.pick(&recent_px);
+                            let p = match g.rng.below(3) { 0 => p0, 1 => p0 * (1.0 + 0.1), _ => p0 * (1.0 - 0.1) };
+                            let q = match g.rng.below(3) { 0 => p, 1 => f64::from_bits(p.to_bits() + 1), _ => f64::from_bits(p.to_bits() - 1) };
+                            if g.rng.chance(1, 2) { bid = q; if ask < bid { ask = bid; } } else { ask = q; if bid > ask { bid = ask; } }
+                            g.stats.bump("quote_within_one_ulp_of_a_resting_price_or_its_band");
+                        }
                         line += &format!(" {} {} {} {}", a, fb(bid), fb(ask), date);
                         nq += 1;
                     } else {
                         g.stats.bump("quote_gap");
                     }
                 }
+                if stress == 2 && g.rng.chance(1, 2) {
+                    // symbols that parse to an asset number without being its decimal form are other instruments
+                    for alias in ["07", "+3", "003", "1.0"] {
+                        if g.rng.chance(1, 2) {
+                            let bid = grid(&mut g.rng) * mag;
+                            line += &format!(" {} {} {} {}", alias, fb(bid), fb(bid), date);
+                            nq += 1;
+                            g.stats.bump("quote_under_a_non_canonical_numeric_symbol");
+                        }
+                    }
+                }
                 g.line(&format!("T {nq}{line}"));
                 g.stats.bump("tick");
                 next_id += pending;
                 pending = 0;
-                date += 1 + g.rng.below(3) as i64;
+                date += date_step * (1 + g.rng.below(date_jitter) as i64);
             }
         }
     }
